@@ -318,6 +318,18 @@ func (u *Unit) appendBuiltin(f *Frame, st *State, s, t Val, resTy types.Type) Va
 	u.assume(st, fmt.Sprintf("(forall ((x Int)) (! (=> (and (<= %s x) (< x (+ %s (s_len %s)))) (= (select %s x) (select %s (+ x (- (s_off %s) %s))))) :pattern ((select %s x))))", noff, noff, s.T, arr, oldS, s.T, noff, arr))
 	u.assume(st, fmt.Sprintf("(forall ((x Int)) (! (=> (and (<= (+ %s (s_len %s)) x) (< x (+ %s %s))) (= (select %s x) %s)) :pattern ((select %s x))))", noff, s.T, noff, newLen, arr, tAtX, arr))
 	u.assume(st, fmt.Sprintf("(=> %s (forall ((x Int)) (! (=> (or (< x %s) (>= x (+ %s %s))) (= (select %s x) (select %s x))) :pattern ((select %s x)))))", fits, noff, noff, newLen, arr, oldS, arr))
+	// appended elements of a literal-length argument (the usual append(s, x)): explicit facts
+	if !isString(t.Ty) {
+		n, ok := u.litLen[t.T]
+		if !ok {
+			n, ok = literalLen(t.T)
+		}
+		if ok && n <= 4 {
+			for i := 0; i < n; i++ {
+				u.assume(st, fmt.Sprintf("(= (select %s (+ %s (s_len %s) %d)) (select (select %s (s_base %s)) (+ (s_off %s) %d)))", arr, noff, s.T, i, h, t.T, t.T, i))
+			}
+		}
+	}
 	u.heapSet(st, hn, et, fmt.Sprintf("(store %s %s %s)", h, nb, arr))
 	r := u.em.define("appended", "Slice", fmt.Sprintf("(mkSlice %s %s %s %s)", nb, noff, newLen, ncap))
 	return Val{T: r, Ty: resTy}
@@ -729,4 +741,21 @@ func fieldFuncKey(v ssa.Value) string {
 		return ""
 	}
 	return "field:" + typeShort(pt.Elem()) + "." + st.Field(fa.Field).Name()
+}
+
+// literalLen: length of a slice term built as (mkSlice base off <numeral> cap).
+func literalLen(t string) (int, bool) {
+	if !strings.HasPrefix(t, "(mkSlice ") {
+		return 0, false
+	}
+	parts := strings.Fields(strings.TrimSuffix(t, ")"))
+	if len(parts) < 5 {
+		return 0, false
+	}
+	// fields: (mkSlice base off len cap  -- base/off may be compound; take the numeral before the last field
+	n := 0
+	if _, err := fmt.Sscanf(parts[len(parts)-2], "%d", &n); err != nil {
+		return 0, false
+	}
+	return n, true
 }
